@@ -2,6 +2,7 @@ package edit
 
 import (
 	"fmt"
+	"strings"
 
 	"oss.terrastruct.com/d2/d2graph"
 	"verif/h/eng"
@@ -112,6 +113,9 @@ func c39(r *Rec) eng.Res {
 		return eng.OK("n/a:"+r.Op.K+"-outside-statement", false)
 	}
 	origin := seedFeature(r)
+	if origin == "" && strings.Contains(r.Pre, ".(") {
+		origin = ":diagram-has-scoped-connection-key" // a.b.(c -> d): a connection written relative to a container path
+	}
 	if declaredThroughFlatKey(g0, r.Op.Key) {
 		origin += ":target-in-flat-key"
 	}
